@@ -319,6 +319,61 @@ Qed.
 Lemma moof_size_pos fr : 0 < moof_size fr.
 Proof. unfold moof_size. lia. Qed.
 
+(* reading one traf of the decoded fragment *)
+Lemma read_traf tracks g fr fr1 (d : dfrag) base otx t1 :
+  ginv tracks g fr -> sized g -> Forall2 topt (fr_trafs fr1) (fr_trafs fr) ->
+  df_data d = all_data g -> df_payload_abs d = df_moof_start d + base -> 0 < base ->
+  df_moof_start d + base + lenN (all_data g) < 9223372036854775808 ->
+  lenN (all_data g) < 4294967296 ->
+  In t1 (fr_trafs fr1) ->
+  let A := track_fulls (track_of t1) g in
+  td_base (tfdt_of A) < 18446744073709551616 ->
+  frag_full_samples (tf_hd t1) otx
+    (map wire_trun (map (fun r => tr_with_doff r (Z.of_N (base + run_pos (runs_of g) (tr_won r)))) (tf_truns t1)))
+    (td_base (tf_dt t1)) d
+  = Ok (retime (td_base (tfdt_of A)) A).
+Proof.
+  intros (Hm & Htr & Hn & Hf & _) Hs HT Hdd Hpa Hb0 Hbig H32 Hin1 A Hbt.
+  destruct (Forall2_in_l _ _ _ _ HT Hin1) as (t & Hin & (Hdt & Htk & Hbdo & Hro)).
+  rewrite Forall_forall in Hf. destruct (Hf t Hin) as [Hhd Htd].
+  destruct Hm as (_ & _ & Hft). rewrite Forall_forall in Hft. pose proof (Hft t Hin) as Htruns.
+  fold (track_of t) in Htruns. rewrite mk_truns_specs in Htruns.
+  unfold A in *. rewrite Htk in *.
+  rewrite (ffs_spec (tf_hd t1) otx d base (runs_of g)) with (specs := specs_of (track_of t) g).
+  - rewrite retime_chain_flat, specs_fulls; [|rewrite Hdt, Htd; exact Hbt].
+    rewrite Hdt, Htd. reflexivity.
+  - rewrite Hbdo, Hhd. reflexivity.
+  - exact Hpa.
+  - exact Hb0.
+  - rewrite Hdd. exact Hbig.
+  - rewrite Hdd. exact H32.
+  - apply good_of_ropt; [intros r; reflexivity|]. rewrite <- Htruns. exact Hro.
+  - rewrite Hdd. apply (specs_placed (track_of t) g []). exact Hs.
+  - apply specs_sized. exact Hs.
+Qed.
+
+(* the decoded view of the encoded fragment, in terms of the optimised fragment fr1 *)
+Lemma decoded_shape tracks g fr opt fe pos0 :
+  NoDup tracks -> ginv tracks g fr -> sized g ->
+  encode_frag opt fr = Ok fe ->
+  let base := moof_size fe + md_header_size (fr_mdat fe) in
+  base + lenN (all_data g) < 2147483648 ->
+  let d := decoded_view fe pos0 [] in
+  exists fr1,
+    Forall2 topt (fr_trafs fr1) (fr_trafs fr) /\
+    df_trafs d = map (fun t => mkTraf (tf_hd t) (tf_dt t)
+                   (map wire_trun (map (fun r => tr_with_doff r (Z.of_N (base + run_pos (runs_of g) (tr_won r)))) (tf_truns t)))
+                   (tf_extra t)) (fr_trafs fr1) /\
+    df_data d = all_data g /\ df_moof_start d = pos0 + fr_pre fe /\ df_payload_abs d = df_moof_start d + base.
+Proof.
+  intros Hnd Hi Hs Henc base Hguard d.
+  destruct (encode_shape tracks g fr opt fe Hnd Hi Hs Henc Hguard) as (fr1 & HT & Etr & Emd & Epre).
+  exists fr1. split; [exact HT|]. destruct Hi as (_ & _ & _ & _ & Hdat & Hpar & Hlaz).
+  split; [unfold d; cbn [decoded_view df_trafs]; rewrite Etr; unfold with_offsets; rewrite map_map; reflexivity|].
+  split; [unfold d; rewrite df_data_full; rewrite Emd; [exact Hdat|exact Hlaz|exact Hpar]|].
+  split; [reflexivity|]. unfold d, base. cbn [decoded_view df_payload_abs df_moof_start]. lia.
+Qed.
+
 Lemma roundtrip_ginv tracks g fr opt fe pos0 tx :
   NoDup tracks -> ginv tracks g fr -> sized g ->
   encode_frag opt fr = Ok fe ->
@@ -329,47 +384,52 @@ Lemma roundtrip_ginv tracks g fr opt fe pos0 tx :
   get_full_samples (decoded_view fe pos0 []) (Some tx) = Ok (retime (td_base (tfdt_of A)) A).
 Proof.
   intros Hnd Hi Hs Henc A Hguard Hpos Hbt.
-  destruct (encode_shape tracks g fr opt fe Hnd Hi Hs Henc Hguard) as (fr1 & HT & Etr & Emd & Epre).
+  destruct (decoded_shape tracks g fr opt fe pos0 Hnd Hi Hs Henc Hguard) as (fr1 & HT & Etrafs & Hdd & Hms & Hpa).
   set (base := moof_size fe + md_header_size (fr_mdat fe)) in *.
-  set (rr := runs_of g) in *.
-  destruct Hi as (Hm & Htr & Hn & Hf & Hdat & Hpar & Hlaz).
-  assert (Hdd : df_data (decoded_view fe pos0 []) = all_data g).
-  { rewrite df_data_full; rewrite Emd; [exact Hdat|exact Hlaz|exact Hpar]. }
-  assert (Hms : df_moof_start (decoded_view fe pos0 []) = pos0 + fr_pre fe) by reflexivity.
-  assert (Hpa : df_payload_abs (decoded_view fe pos0 []) = pos0 + fr_pre fe + base) by (unfold base; cbn [decoded_view df_payload_abs]; lia).
-  unfold get_full_samples.
-  assert (Etrafs : df_trafs (decoded_view fe pos0 []) =
-            map (fun t => mkTraf (tf_hd t) (tf_dt t)
-                   (map wire_trun (map (fun r => tr_with_doff r (Z.of_N (base + run_pos rr (tr_won r)))) (tf_truns t)))
-                   (tf_extra t)) (fr_trafs fr1)).
-  { cbn [decoded_view df_trafs]. rewrite Etr. unfold with_offsets. rewrite map_map. reflexivity. }
-  rewrite Etrafs, find_map. cbn [tf_hd].
-  generalize dependent (decoded_view fe pos0 []). intros d Hdd Hms Hpa _.
+  unfold get_full_samples. rewrite Etrafs, find_map. cbn [tf_hd].
+  generalize dependent (decoded_view fe pos0 []). intros d _ Hdd Hms Hpa.
   destruct (find (fun a => tf_track (tf_hd a) =? tx_track tx) (fr_trafs fr1)) as [t1|] eqn:Efind; cbn [option_map rbind].
   - apply find_some in Efind. destruct Efind as [Hin1 Et1]. apply N.eqb_eq in Et1.
-    destruct (Forall2_in_l _ _ _ _ HT Hin1) as (t & Hin & (Hdt & Htk & Hbdo & Hro)).
-    rewrite Forall_forall in Hf. destruct (Hf t Hin) as [Hhd Htd].
-    destruct Hm as (_ & _ & Hft). rewrite Forall_forall in Hft. pose proof (Hft t Hin) as Htruns.
-    assert (HT' : track_of t = tx_track tx) by (rewrite <- Htk; exact Et1).
-    fold (track_of t) in Htruns. rewrite HT' in *. unfold rr in Htruns. rewrite mk_truns_specs in Htruns.
-    cbn [tf_truns tf_dt tf_hd].
-    rewrite (ffs_spec (tf_hd t1) (Some tx) d base rr) with (specs := specs_of (tx_track tx) g).
-    + rewrite retime_chain_flat, specs_fulls; [|rewrite Hdt, Htd; exact Hbt].
-      rewrite Hdt, Htd. reflexivity.
-    + rewrite Hbdo, Hhd. reflexivity.
-    + rewrite Hpa, Hms. reflexivity.
+    cbn [tf_truns tf_dt tf_hd]. fold (track_of t1) in Et1. unfold A. rewrite <- Et1.
+    apply (read_traf tracks g fr fr1 d base (Some tx) t1); try assumption.
     + unfold base. pose proof (moof_size_pos fe). lia.
-    + rewrite Hms, Hdd. unfold base in *. lia.
-    + rewrite Hdd. unfold base in *. lia.
-    + apply good_of_ropt; [intros r; reflexivity|]. rewrite <- Htruns. exact Hro.
-    + rewrite Hdd. apply (specs_placed (tx_track tx) g []). exact Hs.
-    + apply specs_sized. exact Hs.
-  - (* no traf for this track id: GetFullSamples returns nil, and nothing was added to it *)
+    + rewrite Hms. unfold base in *. lia.
+    + unfold base in *. lia.
+    + rewrite Et1. exact Hbt.
+  - destruct Hi as (_ & Htr & Hn & _).
     assert (Hnot : ~ In (tx_track tx) tracks).
     { intros Hin. rewrite <- Htr, <- (topt_tracks _ _ HT) in Hin. apply in_map_iff in Hin.
       destruct Hin as (t1 & Ht1 & Hin1). pose proof (find_none _ _ Efind t1 Hin1) as Hx. cbn beta in Hx.
       unfold track_of in Ht1. rewrite Ht1, N.eqb_refl in Hx. discriminate. }
     unfold A. rewrite (track_fulls_notin tracks _ g Hn Hnot). reflexivity.
+Qed.
+
+(* trex == nil: GetFullSamples reads the first traf *)
+Lemma roundtrip_ginv_nil tracks g fr opt fe pos0 T0 rest :
+  tracks = T0 :: rest ->
+  NoDup tracks -> ginv tracks g fr -> sized g ->
+  encode_frag opt fr = Ok fe ->
+  let A := track_fulls T0 g in
+  moof_size fe + md_header_size (fr_mdat fe) + lenN (all_data g) < 2147483648 ->
+  pos0 + fr_pre fe < 4611686018427387904 ->
+  td_base (tfdt_of A) < 18446744073709551616 ->
+  get_full_samples (decoded_view fe pos0 []) None = Ok (retime (td_base (tfdt_of A)) A).
+Proof.
+  intros Etk Hnd Hi Hs Henc A Hguard Hpos Hbt.
+  destruct (decoded_shape tracks g fr opt fe pos0 Hnd Hi Hs Henc Hguard) as (fr1 & HT & Etrafs & Hdd & Hms & Hpa).
+  set (base := moof_size fe + md_header_size (fr_mdat fe)) in *.
+  unfold get_full_samples. rewrite Etrafs.
+  generalize dependent (decoded_view fe pos0 []). intros d _ Hdd Hms Hpa.
+  pose proof (topt_tracks _ _ HT) as Htk. pose proof Hi as (Hm & Htr & Hrest). rewrite Htr, Etk in Htk.
+  destruct (fr_trafs fr1) as [|t1 ts1] eqn:E1; [discriminate|]. cbn [map] in Htk. injection Htk as Ht1 _.
+  cbn [map rbind tf_hd tf_dt tf_truns]. unfold A. rewrite <- Ht1.
+  apply (read_traf tracks g fr fr1 d base None t1); try assumption.
+  - rewrite E1. exact HT.
+  - unfold base. pose proof (moof_size_pos fe). lia.
+  - rewrite Hms. unfold base in *. lia.
+  - unfold base in *. lia.
+  - rewrite E1. left. reflexivity.
+  - rewrite Ht1. exact Hbt.
 Qed.
 
 Lemma ghost_ginv tracks ops cs fr0 fr :
@@ -674,4 +734,29 @@ Lemma offsets_multi_final tracks pre mx post exs ops cs fr :
 Proof.
   intros Hnd Hlen Hfull Hsz Hrun. apply (offsets_multi tracks ops cs (with_extras (create_multi tracks) pre mx post exs) fr); try assumption.
   apply create_multi_extras_ginv. exact Hnd.
+Qed.
+
+Lemma roundtrip_multi_nil_final T0 rest pre mx post exs ops cs fr opt fe pos0 :
+  let tracks := T0 :: rest in
+  NoDup tracks -> N.of_nat (length ops) < 4294967296 -> forallb is_full_to ops = true ->
+  Forall (fun o => sized_f (op_full o)) ops ->
+  run_ops (with_extras (create_multi tracks) pre mx post exs) ops = (cs, Some fr) ->
+  encode_frag opt fr = Ok fe ->
+  moof_size fe + md_header_size (fr_mdat fe) + lenN (md_data (fr_mdat fr)) < 2147483648 ->
+  pos0 + fr_pre fe < 4611686018427387904 ->
+  consistent (added_fulls tracks T0 ops) ->
+  get_full_samples (decoded_view fe pos0 []) None = Ok (added_fulls tracks T0 ops).
+Proof.
+  intros tracks Hnd Hlen Hfull Hsz Hrun Henc Hguard Hpos Hcons.
+  pose proof (ghost_ginv tracks ops cs _ fr Hnd Hlen Hfull (create_multi_extras_ginv tracks pre mx post exs Hnd) Hrun) as Hi.
+  assert (Hs : sized (ghost tracks [] ops)) by (apply ghost_sized; [constructor|exact Hsz]).
+  pose proof Hi as (_ & _ & _ & _ & Hdat & _).
+  pose proof (track_fulls_ghost tracks T0 ops []) as HA. cbn [track_fulls app] in HA.
+  rewrite (roundtrip_ginv_nil tracks _ fr opt fe pos0 T0 rest eq_refl Hnd Hi Hs Henc).
+  - rewrite HA. unfold consistent in Hcons. destruct (added_fulls tracks T0 ops) as [|f l]; [reflexivity|].
+    cbn [tfdt_of set_base td_base]. f_equal. exact (proj2 Hcons).
+  - rewrite <- Hdat. exact Hguard.
+  - exact Hpos.
+  - rewrite HA. unfold consistent in Hcons. destruct (added_fulls tracks T0 ops) as [|f l]; [cbn; lia|].
+    cbn [tfdt_of set_base td_base]. exact (proj1 Hcons).
 Qed.
